@@ -276,6 +276,8 @@ def _run(plugin, pid, tier, seed, work, violations, known_lines, coverage, repla
                      "harness_errors": len(errs),
                      "samples": [plugin.sample(cases[i], results[i][0]) for i in idxmap[:3]],
                      "distribution": plugin.distribution(cases) if getattr(plugin, "distribution", None) else {}})
+    if getattr(plugin, "coverage_extra", None):
+        coverage.update(plugin.coverage_extra([cases[i] for i in idxmap], [results[i][0] for i in idxmap]))
     seen_sig = set()
     # cases the harness never got to (it stops after three hangs) say nothing by themselves
     if any("TIMEOUT" in e for _, e in errs):
